@@ -2310,7 +2310,8 @@ def resolve_ites(ctx, t, budget=200):
         return _real_free[k]
 
     isolv = z3.Solver()
-    isolv.set("timeout", 3000)
+    isolv.set("timeout", 20000)
+    isolv.set("rlimit", 4000000)  # deterministic cut-off (see Ctx)
     for f in ctx.pc:
         for g in (f.children() if z3.is_and(f) else [f]):
             if real_free(g):
